@@ -54,6 +54,11 @@ def _expand(ctx, fi, e, depth=0):
         ds = [d for d in ctx.flow.defs(fi).of(e.id) if d[0] == "value"]
         if len(ds) == 1 and len(ctx.flow.defs(fi).of(e.id)) == 1:
             return _expand(ctx, fi, ds[0][1], depth + 1)
+        # `x = None` on the "nothing there" branch and one real definition:
+        # where x is dereferenced it is the real one
+        real = [d for d in ds if not (isinstance(d[1], ast.Constant) and d[1].value is None)]
+        if len(ds) == len(ctx.flow.defs(fi).of(e.id)) == 2 and len(real) == 1:
+            return _expand(ctx, fi, real[0][1], depth + 1)
     return e
 
 
@@ -132,7 +137,13 @@ def run(ctx):
     # every return is the last list element or the constant for "no reward yet"
     # (`x[-1] if x else 0`, or try: return x[-1] / except IndexError: return 0)
     last = [r for r, t in zip(rets, texts) if "self.rewards[-1]" in t]
-    other = [r for r, t in zip(rets, texts) if "self.rewards[-1]" not in t and not isinstance(r.value, ast.Constant)]
+    def _is_const(v):
+        # a literal, or a module-level named constant (`_NO_REWARD = 0`)
+        if isinstance(v, ast.Constant):
+            return True
+        return isinstance(v, ast.Name) and isinstance(lr.module.assigns.get(v.id), ast.Constant) and not ctx.flow.defs(lr).of(v.id)
+
+    other = [r for r, t in zip(rets, texts) if "self.rewards[-1]" not in t and not _is_const(r.value)]
     if last and not other:
         chk.ok("R13.a", lr.qualname, lr.loc(), "last_reward = rewards[-1]")
     else:
